@@ -317,6 +317,19 @@ class StaleFlow(Flow):
                 self.cache_tests.append((n.left.value, n, self.cur))
         return s
 
+    def _literal_iter(self, it):
+        """A literal tuple/list, also when it is held in a class attribute (`for key in self._names:`)."""
+        if isinstance(it, ast.Attribute) and is_self(it.value):
+            hit = self.lc.cls.lookup_attr(it.attr)
+            if hit is not None and isinstance(hit[1], (ast.Tuple, ast.List)):
+                return hit[1]
+        return it
+
+    def runs_at_least_once(self, st):
+        it = self._literal_iter(getattr(st, 'iter', None))
+        return isinstance(it, (ast.Tuple, ast.List)) and len(it.elts) > 0 \
+            and not any(isinstance(e, ast.Starred) for e in it.elts)
+
     def visit_call(self, n, s):
         f = n.func
         if isinstance(f, ast.Attribute):
@@ -330,11 +343,12 @@ class StaleFlow(Flow):
                 # for key in ('a', 'b', ...): self.__dict__.pop(key, None)
                 st = enclosing_stmt(n)
                 loop = getattr(st, '_parent', None)
+                it = self._literal_iter(loop.iter) if isinstance(loop, ast.For) else None
                 if isinstance(loop, ast.For) and any(b is st for b in loop.body) \
                         and isinstance(loop.target, ast.Name) and loop.target.id == n.args[0].id \
-                        and isinstance(loop.iter, (ast.Tuple, ast.List)) \
-                        and all(isinstance(e, ast.Constant) and isinstance(e.value, str) for e in loop.iter.elts):
-                    for e in loop.iter.elts:
+                        and isinstance(it, (ast.Tuple, ast.List)) \
+                        and all(isinstance(e, ast.Constant) and isinstance(e.value, str) for e in it.elts):
+                    for e in it.elts:
                         self.ev_pop(e.value, s)
                 return s
             if f.attr in ('update', 'setdefault') and isinstance(f.value, ast.Attribute) and f.value.attr == '__dict__' \
